@@ -24,6 +24,8 @@ claimed = {
          "§5 C19"),
  "C12": ("PX", "Full enumeration of the truth table: all 65 ordered subsets of the four condition kinds x 6 registration variants (value / non-pointer / pointer type target; single and multi-argument calls) x 32 outcomes (result 0/1 x nil, sentinel, wrapped, joined, typed by value and by pointer receiver, nested wrap/join, unrelated), each exercised on the real fallback, retry policy, breaker (executions and RecordResult/RecordError), retry abort conditions and hedge cancel conditions and compared with the documented rules using the standard library's matchers: 12,480 cases, 62,400 policy runs.",
          "§5 C12"),
+ "C13": ("PX", "Enumeration of 1,800 retry delay configurations (fixed, backoff x 3 factors x 2 max delays, random range, four delay functions; magnitudes 1us..7h+1ns; 7 jitter settings; 3 max durations; attempt durations) with eight consecutive failures each, every random draw an enumerated choice point over {0, 0.5, 1-2^-53} (first 3 draws quick / 5 thorough): every scheduled delay is compared with the un-jittered value prescribed by the statement, the jitter envelope, maxDelay, monotonicity, the remaining max duration, and the virtual instant of the next attempt.",
+         "§5 C13"),
 }
 na = {}
 props = [json.loads(l) for l in open('/verif/properties.jsonl')]
